@@ -1,6 +1,7 @@
 (** * C11 — all physical implementations of an operator agree.
     Only statements, each closed by [exact], with its assumptions printed. *)
-From RL Require Import Model.Exec Proofs.ExecP.
+From RL Require Import Model.Exec Proofs.ExecP Proofs.MergeJoinP.
+From Coq Require Import Permutation.
 Open Scope Z_scope.
 
 (** hash join = nested-loop join (as LISTS, in the model's first-seen iteration order) for every
@@ -29,6 +30,17 @@ Theorem joins_independent_of_chunking : forall t lk rk cond nl nr L L' R R',
   x_mergejoin t lk rk nl nr L R = x_mergejoin t lk rk nl nr L' R'.
 Proof. exact joins_ignore_chunking. Qed.
 
+(** merge join (runs of equal keys on both sides, three-way walk) over inputs sorted on their keys
+    = hash join, as bags, for every input with duplicate and NULL keys; hence = the nested-loop join
+    whenever the condition is the SQL equality of the keys *)
+Theorem merge_inner_eq_hash : forall lk rk nl nr L R, sorted_on lk (concat L) -> sorted_on rk (concat R) ->
+  Permutation (x_mergejoin JInner lk rk nl nr L R) (x_hashjoin JInner lk rk nl nr L R).
+Proof. exact mergejoin_inner_eq_hashjoin. Qed.
+Theorem merge_inner_eq_nested_loop : forall cond lk rk nl nr L R, sorted_on lk (concat L) -> sorted_on rk (concat R) ->
+  equi_cond cond lk rk (concat L) (concat R) ->
+  exists out, x_nljoin JInner cond nr L R = Some out /\ Permutation (x_mergejoin JInner lk rk nl nr L R) out.
+Proof. exact mergejoin_inner_eq_nljoin. Qed.
+
 (** sort-then-limit = top-N *)
 Theorem topn_eq_sort_then_limit : forall limit offset ks c,
   x_topn limit offset ks c = concat (x_limit limit offset [x_order ks c]).
@@ -55,5 +67,7 @@ Print Assumptions hash_left_eq_nested_loop.
 Print Assumptions hash_semi_eq_nested_loop.
 Print Assumptions hash_anti_eq_nested_loop.
 Print Assumptions joins_independent_of_chunking.
+Print Assumptions merge_inner_eq_hash.
+Print Assumptions merge_inner_eq_nested_loop.
 Print Assumptions topn_eq_sort_then_limit.
 Print Assumptions int_width_keys_disagree.
